@@ -135,6 +135,7 @@ _BK = "acryo.backend._bandpass:"
 
 @contract("acryo.backend._api:Backend.lowpass_filter_ft", props=["C16"])
 class backend_lowpass_ft:
+    inline = True       # thin delegation: callers see through it to the contract of the implementation
     params = dict(self=T.Backend(), img=_IMG, cutoff=T.Real(), order=T.OneOf(1, 2, 3))
     native_call = "np.asarray(args['self'].lowpass_filter_ft(args['img'], args['cutoff'], args['order']))"
     native = {"delegates": "np.allclose(result, _mod._bandpass.lowpass_filter_ft(self, img, cutoff, order), atol=1e-3)"}
@@ -146,6 +147,7 @@ class backend_lowpass_ft:
 
 @contract("acryo.backend._api:Backend.lowpass_filter", props=["C16"])
 class backend_lowpass:
+    inline = True
     params = dict(self=T.Backend(), img=_IMG, cutoff=T.Real(), order=T.OneOf(1, 2, 3))
     native_call = "np.asarray(args['self'].lowpass_filter(args['img'], args['cutoff'], args['order']))"
     native = {"delegates": "np.allclose(result, _mod._bandpass.lowpass_filter(self, img, cutoff, order), atol=1e-3)"}
